@@ -48,6 +48,10 @@ fn main() {
     if args[1] == "child" {
         std::process::exit(child::main(&args[2..]));
     }
+    if args[1] == "hunt-c04" {
+        c04::hunt(args[2].parse().unwrap(), args[3].parse().unwrap(), args[4].parse().unwrap());
+        return;
+    }
     if args[1] == "hunt-c05" {
         // fvh hunt-c05 <n> <first> <count>
         c05::hunt(args[2].parse().unwrap(), args[3].parse().unwrap(), args[4].parse().unwrap());
